@@ -895,6 +895,7 @@ class C04(Prop):
                 i = int(t[1])
                 now_ = parse_store(o.split("|")[1])
                 if t[2] == "max_debt":
+                    init_total += max(0, int(t[3]) - cfg[i]["max_debt"])     # a raised limit is credit the colony did not have
                     cfg[i]["max_debt"] = int(t[3])
                     cfg[i]["accrued"] = max(0, now_[3] - int(t[3]))
                 elif t[2].startswith("max_"):
